@@ -573,5 +573,6 @@ pub fn property() -> Property {
         ],
         families,
         prelude: None,
+        epilogue: None,
     }
 }
